@@ -29,7 +29,7 @@ nonNegativeInteger unsignedLong unsignedInt unsignedShort unsignedByte positiveI
 # ====================================================================================== application specs
 # A spec is plain JSON (so that fresh processes can rebuild the same application):
 #  T  = {'p': prim, 'cust': {...}, 'occ': {...}} | {'c': name} | {'e': name} | {'arr': T} | {'attr': T}
-PRIMS = ['Unicode', 'Integer', 'Integer32', 'Boolean', 'Decimal', 'Date', 'AnyUri']
+PRIMS = ['Unicode', 'Integer', 'Integer32', 'Boolean', 'Decimal', 'Date', 'AnyUri', 'ByteArray']
 
 
 def _prim(name):
@@ -38,14 +38,20 @@ def _prim(name):
 
 
 def build_type(T, env):
-    from spyne.model.complex import Array, XmlAttribute
+    from spyne.model.complex import Array, Iterable, XmlAttribute, XmlData
     if 'p' in T:
-        cls = _prim(T['p'])
+        if T['p'] == 'ByteArray':
+            from spyne.model.binary import ByteArray
+            cls = ByteArray
+        else:
+            cls = _prim(T['p'])
         kw = {}
         for k, v in (T.get('cust') or {}).items():
             kw[k] = v
         for k, v in (T.get('occ') or {}).items():
             kw[k] = D('inf') if v == 'unbounded' else v
+        if T.get('mdoc'):
+            kw['doc'] = T['mdoc']                       # documentation of the member element
         return cls(**kw) if kw else cls
     if 'c' in T:
         cls = env[T['c']]
@@ -55,8 +61,12 @@ def build_type(T, env):
         return env[T['e']]
     if 'arr' in T:
         return Array(build_type(T['arr'], env))
+    if 'iter' in T:
+        return Iterable(build_type(T['iter'], env))
     if 'attr' in T:
-        return XmlAttribute(build_type(T['attr'], env))
+        return XmlAttribute(build_type(T['attr'], env), use=T.get('use'))
+    if 'data' in T:
+        return XmlData(build_type(T['data'], env))
     raise ValueError(T)
 
 
@@ -66,7 +76,7 @@ class Built(object):
 
 def build_app(spec, validator=None, record=None, returns=None):
     """build the real Application described by `spec` (fresh classes on every call)"""
-    from spyne import Application, Service, rpc
+    from spyne import Application, Service, rpc, srpc
     from spyne.model.complex import ComplexModel, ComplexModelMeta
     from spyne.model.fault import Fault
     from spyne.model.enum import Enum
@@ -82,6 +92,14 @@ def build_app(spec, validator=None, record=None, returns=None):
                 bases = (mx, base) if t['mixin'] == 'before' else (base, mx)
             d = {'__module__': 'c07app', '_type_info': [(k, build_type(T, env)) for k, T in t['fields']]}
             d['__namespace__'] = t.get('ns') or spec['tns']      # a class without one takes its module's name
+            if t.get('doc'):
+                # public documentation (xs:annotation/xs:documentation) and application info of the class
+                ann = {'doc': t['doc']}
+                if t.get('appinfo'):
+                    ann['appinfo'] = t['appinfo']
+                d['Annotations'] = type('Annotations', (ComplexModel.Annotations,), ann)
+            if t.get('tname'):
+                d['__type_name__'] = t['tname']
             env[t['name']] = ComplexModelMeta(str(t['name']), bases, d)
         elif t['k'] == 'enum':
             env[t['name']] = Enum(*t['values'], type_name=t['name'])
@@ -102,7 +120,7 @@ def build_app(spec, validator=None, record=None, returns=None):
                 hs = tuple(env[h] for h in s[hk])
                 d['__%s__' % hk] = hs[0] if len(hs) == 1 else hs
         for m in s['methods']:
-            kw = {'_args': [p[0] for p in m['params']]}
+            kw = {} if m.get('introspect') else {'_args': [p[0] for p in m['params']]}
             r = m.get('returns')
             if r is not None:
                 kw['_returns'] = [build_type(x, env) for x in r] if isinstance(r, list) else build_type(r, env)
@@ -113,25 +131,51 @@ def build_app(spec, validator=None, record=None, returns=None):
                 if m.get(a):
                     kw[b] = m[a]
             if m.get('throws'):
-                kw['_throws'] = [env[f] for f in m['throws']]
+                fl = [env[f] for f in m['throws']]
+                if m.get('throws_single') and len(fl) == 1:
+                    fl = fl[0]                              # a single class instead of a sequence
+                kw['_faults' if m.get('faults_kw') else '_throws'] = fl
+            if m.get('arg_names'):
+                kw['_in_variable_names' if m.get('arg_names_old') else '_in_arg_names'] = dict(m['arg_names'])
+            if m.get('soap_style'):
+                kw['_soap_body_style'] = m['soap_style']
+                kw.setdefault('_body_style', m.get('body', 'wrapped'))
+            if m.get('udd'):
+                kw['_udd'] = {'k': 1}
             for hk in ('in_header', 'out_header'):
                 if m.get(hk):
                     kw['_' + hk] = tuple(env[h] for h in m[hk])
 
             def mk(m=m):
-                def fn(ctx, *args):
+                def impl(ctx, *args):
                     if record is not None:
-                        record.append((m['fn'], args, ctx.in_header))
+                        record.append((m['fn'], args, ctx.in_header if ctx is not None else None))
                     if returns is not None and m['fn'] in returns:
                         return returns[m['fn']]()
                     return None
+                names = [p[0] for p in m['params']]
+                if m.get('introspect'):
+                    # a real signature: the decorator reads the argument names from the code object
+                    src = 'def fn(%s): return impl(%s)' % (', '.join(([] if m.get('srpc') else ['ctx']) + names),
+                                                          ', '.join((['None'] if m.get('srpc') else ['ctx']) + names))
+                    g = {'impl': impl}
+                    exec(src, g)
+                    fn = g['fn']
+                elif m.get('srpc'):
+                    def fn(*args):
+                        return impl(None, *args)
+                else:
+                    def fn(ctx, *args):
+                        return impl(ctx, *args)
                 fn.__name__ = str(m['fn'])
-                fn.__doc__ = None
+                fn.__doc__ = m.get('doc')
                 return fn
-            d[str(m['fn'])] = rpc(*[build_type(p[1], env) for p in m['params']], **kw)(mk())
+            deco = srpc if m.get('srpc') else rpc
+            d[str(m['fn'])] = deco(*[build_type(p[1], env) for p in m['params']], **kw)(mk())
         services.append(type(Service)(str(s['name']), (Service,), d))
     P = Soap12 if spec.get('soap12') else Soap11
-    app = Application(services, spec['tns'], name=spec['name'], in_protocol=P(validator=validator), out_protocol=P())
+    app = Application(services, spec['tns'], name=spec['name'], in_protocol=P(validator=validator), out_protocol=P(),
+                      classes=[env[n] for n in spec.get('extra') or ()])
     app.transport = TRANSPORT
     for pref, ns in spec.get('pins') or ():
         # prefixes the deployment pins through the Interface.nsmap / prefmap tables
@@ -156,7 +200,7 @@ def extract_istate(app):
     from spyne.model import SimpleModel, ComplexModelBase
     from spyne.model.fault import Fault
     from spyne.model.enum import EnumBase
-    from spyne.model.complex import XmlAttribute
+    from spyne.model.complex import XmlAttribute, XmlData, XmlModifier
     itf = app.interface
     seen, order = {}, []
 
@@ -168,7 +212,7 @@ def extract_istate(app):
             for k, v in (getattr(c, '_type_info', None) or {}).items():
                 if v is None:
                     continue
-                if issubclass(v, XmlAttribute):
+                if issubclass(v, XmlModifier):
                     out.append(v.type)
                 out.append(v)
         return out
@@ -230,8 +274,9 @@ def extract_istate(app):
             for k, v in (getattr(c, '_type_info', None) or {}).items():
                 a = v.Attributes
                 isattr = issubclass(v, XmlAttribute)
+                isdata = issubclass(v, XmlData)
                 fields.append({'name': k, 'subName': a.sub_name or None if not isattr else None, 'ty': cid(v),
-                               'isAttr': isattr, 'inner': cid(v.type) if isattr else 0,
+                               'isAttr': isattr, 'isData': isdata, 'inner': cid(v.type) if (isattr or isdata) else 0,
                                'use': (v._use if isattr else None), 'minOccurs': occ_min(a), 'maxOccurs': occ_max(a),
                                'nillable': bool(a.nillable)})
         sub_ns = c.Attributes.sub_ns
@@ -264,7 +309,7 @@ def extract_istate(app):
             ms.append({'name': m.name, 'opName': m.operation_name, 'inMsg': cid(m.in_message), 'outMsg': cid(m.out_message),
                        'inHeader': None if m.in_header is None else [cid(h) for h in m.in_header],
                        'outHeader': None if m.out_header is None else [cid(h) for h in m.out_header],
-                       'faults': [cid(f) for f in (m.faults or ())], 'portType': m.port_type})
+                       'faults': [cid(f) for f in (m.faults or ())], 'portType': m.port_type, 'doc': m.doc})
         services.append({'name': s.get_service_name(), 'portTypes': list(s.get_port_types()), 'methods': ms})
     pinned = [[p, n] for p, n in itf.nsmap.items() if p not in X.NSMAP and p != 'tns']
     st = {'tns': itf.get_tns(), 'name': itf.get_name(),
@@ -320,11 +365,15 @@ def parse_wsdl(data):
                 s['imports'].append(ch.get('namespace')); seq.append(0)
             elif ln in ('complexType', 'simpleType'):
                 seq.append(1)
-                t = {'name': ch.get('name'), 'complex': ln == 'complexType', 'base': None, 'elems': [], 'attrs': [], 'enums': []}
-                ext = ch.find('.//' + _q(NS_XSD, 'extension'))
+                t = {'name': ch.get('name'), 'complex': ln == 'complexType', 'base': None, 'elems': [], 'attrs': [], 'enums': [],
+                     'dataBases': []}
+                ext = ch.find(_q(NS_XSD, 'complexContent') + '/' + _q(NS_XSD, 'extension'))
                 rst = ch.find(_q(NS_XSD, 'restriction'))
                 if ext is not None:
                     t['base'] = ext.get('base')
+                for sc in ch.iter(_q(NS_XSD, 'simpleContent')):
+                    for x in sc.findall(_q(NS_XSD, 'extension')):
+                        t['dataBases'].append(x.get('base'))
                 if rst is not None:
                     t['base'] = rst.get('base')
                     t['enums'] = [e.get('value') for e in rst.findall(_q(NS_XSD, 'enumeration'))]
@@ -356,7 +405,8 @@ def parse_wsdl(data):
         ops = []
         for o in pt.findall(_q(NS_WSDL, 'operation')):
             i, u = o.find(_q(NS_WSDL, 'input')), o.find(_q(NS_WSDL, 'output'))
-            ops.append({'name': o.get('name'), 'paramOrder': o.get('parameterOrder'),
+            dn = o.find(_q(NS_WSDL, 'documentation'))
+            ops.append({'name': o.get('name'), 'doc': dn.text if dn is not None else None, 'paramOrder': o.get('parameterOrder'),
                         'inName': i.get('name') if i is not None else None, 'inMsg': i.get('message') if i is not None else None,
                         'outName': u.get('name') if u is not None else None, 'outMsg': u.get('message') if u is not None else None,
                         'faults': [{'name': f.get('name'), 'message': f.get('message')} for f in o.findall(_q(NS_WSDL, 'fault'))]})
@@ -572,17 +622,24 @@ def gen_prim(rng, rich=True):
     T = {'p': p}
     r = rng.random()
     if r < 0.3 and p == 'Unicode':
+        k = rng.randrange(3, 8)
         T['cust'] = rng.choice([{'max_len': rng.randrange(3, 9)}, {'min_len': 1, 'max_len': rng.randrange(4, 12)},
-                                {'values': ['v%d' % i for i in range(rng.randrange(1, 4))]}])
+                                {'values': ['v%d' % i for i in range(rng.randrange(1, 4))]},
+                                {'min_len': k, 'max_len': k}, {'pattern': '[a-z]+', 'max_len': 8}])
     elif r < 0.3 and p == 'Integer':
-        T['cust'] = rng.choice([{'ge': rng.randrange(0, 5)}, {'ge': 0, 'le': rng.randrange(10, 99)}])
+        T['cust'] = rng.choice([{'ge': rng.randrange(0, 5)}, {'ge': 0, 'le': rng.randrange(10, 99)}, {'gt': 0, 'lt': 100}])
+    elif r < 0.3 and p == 'Decimal':
+        T['cust'] = {'total_digits': 5, 'fraction_digits': 2}
     return T
 
 
 def gen_T(rng, names, enums, depth=0, allow_attr=False):
     r = rng.random()
-    if allow_attr and r < 0.08:
-        return {'attr': {'p': rng.choice(['Unicode', 'Integer', 'Boolean'])}}
+    if allow_attr and r < 0.1:
+        T = {'attr': {'e': rng.choice(enums)} if enums and rng.random() < 0.3 else {'p': rng.choice(['Unicode', 'Integer', 'Boolean'])}}
+        if rng.random() < 0.3:
+            T['use'] = 'required'
+        return T
     if names and r < 0.35:
         T = {'c': rng.choice(names)}
         if rng.random() < 0.2:
@@ -592,10 +649,12 @@ def gen_T(rng, names, enums, depth=0, allow_attr=False):
         return {'e': rng.choice(enums)}
     if r < 0.6 and depth == 0:
         inner = {'c': rng.choice(names)} if names and rng.random() < 0.6 else {'p': rng.choice(['Unicode', 'Integer', 'Boolean'])}
-        return {'arr': inner}
+        return {rng.choice(['arr', 'arr', 'iter']): inner}
     T = gen_prim(rng)
     if rng.random() < 0.2:
         T['occ'] = rng.choice([{'min_occurs': 1}, {'nillable': False}, {'max_occurs': 'unbounded'}, {'min_occurs': 1, 'max_occurs': 3}])
+    if rng.random() < 0.1:
+        T['mdoc'] = rng.choice(['the <member> & its "doc"', 'plain'])
     return T
 
 
@@ -618,7 +677,19 @@ def gen_spec(rng, idx):
             ct['mixin'] = 'before'
         elif r < 0.2:
             ct['mixin'] = 'after'
+        if rng.random() < 0.2:
+            ct['doc'] = rng.choice(['A documented class.', 'x < y & z > "q"', 'mehrzeilig\n  zweite Zeile é'])
+            if rng.random() < 0.5:
+                ct['appinfo'] = rng.choice(['plain <text> & more', {'owner': 'team a', 'tags': ['x', 'y']}])
         types.append(ct)
+        cnames.append(n)
+    for i in range(rng.choice([0, 0, 1, 2])):
+        # text content plus attributes: xs:simpleContent/xs:extension base="..."
+        n = 'D%d' % i
+        dt = {'p': rng.choice(['Unicode', 'Integer', 'Boolean', 'Date'])}    # (XmlData of an anonymous restricted type is rejected by populate_interface)
+        fields = [['val', {'data': dt}]] + [['at%d' % j, {'attr': {'p': rng.choice(['Unicode', 'Integer', 'Boolean'])}}]
+                                            for j in range(rng.randrange(0, 3))]
+        types.append({'k': 'complex', 'name': n, 'ns': rng.choice(nss + [None]) if nss else None, 'base': None, 'fields': fields})
         cnames.append(n)
     for i in range(rng.randrange(0, 4)):
         n = 'H%d' % i
@@ -640,6 +711,8 @@ def gen_spec(rng, idx):
         s = {'name': 'Svc%d' % si, 'methods': []}
         if rng.random() < 0.3:
             s['port_types'] = ['Pt%d_%d' % (si, j) for j in range(rng.choice([1, 1, 2, 3]))]
+            if rng.random() < 0.3:
+                s['service_name'] = 'SharedSvc'         # several services under one wsdl:service
         if hnames and rng.random() < 0.3:
             s['in_header'] = rng.sample(hnames, rng.choice([1, 1, min(2, len(hnames)), len(hnames)]))
         if hnames and rng.random() < 0.2:
@@ -678,10 +751,34 @@ def gen_spec(rng, idx):
                 m['out_header'] = rng.sample(hnames, rng.randrange(1, len(hnames) + 1))
             if s.get('port_types'):
                 m['port_type'] = rng.choice(s['port_types'])
+            if rng.random() < 0.3:
+                m['doc'] = rng.choice(['Does something.', 'a < b & "c"', 'line one\n    line two'])
+            if rng.random() < 0.15:
+                m['srpc'] = True
+            if rng.random() < 0.3:
+                m['introspect'] = True
+            if m.get('throws'):
+                if rng.random() < 0.3:
+                    m['faults_kw'] = True
+                if len(m['throws']) == 1 and rng.random() < 0.5:
+                    m['throws_single'] = True
+            if body != 'bare' and m['params'] and rng.random() < 0.2:
+                m['arg_names'] = dict((p[0], 'pub_' + p[0]) for p in m['params'][:rng.randrange(1, len(m['params']) + 1)])
+                m['arg_names_old'] = rng.random() < 0.3
+            if rng.random() < 0.1:
+                m['part'] = 'parameters'
+            if rng.random() < 0.1:
+                m['soap_style'] = 'rpc' if body == 'bare' else ('document' if body == 'wrapped' else None)
+                if m['soap_style'] is None:
+                    del m['soap_style']
+            if rng.random() < 0.1:
+                m['udd'] = True
             s['methods'].append(m)
         services.append(s)
     spec = {'id': 'rnd%d' % idx, 'tns': rng.choice(['tns.main', 'urn:spyne:c07', 'http://example.com/app/']),
             'name': rng.choice(['App', 'Gen%d' % idx]), 'types': types, 'services': services}
+    if cnames and rng.random() < 0.2:
+        spec['extra'] = rng.sample(cnames, rng.randrange(1, min(3, len(cnames)) + 1))     # Application(classes=[...])
     if nss and rng.random() < 0.25:
         # the deployment pins prefixes, some of them inside the generator's own s0, s1, ... sequence
         prefs = rng.sample(['s0', 's1', 's2', 's3', 's5', 'p', 'lib', 's10'], min(len(nss), rng.randrange(1, 4)))
@@ -740,6 +837,49 @@ def boundary_specs():
             {'k': 'complex', 'name': 'Sub', 'ns': 'ns.a', 'base': 'Tagged', 'mixin': pos, 'fields': [['z', I]]},
             {'k': 'complex', 'name': 'Box', 'ns': None, 'fields': [['t', {'c': 'Tagged'}], ['l', {'arr': {'c': 'Sub'}}]]}],
             'services': [{'name': 'S', 'methods': [{'fn': 'f', 'params': [['b', {'c': 'Box'}]], 'returns': {'c': 'Tagged'}}]}]})
+    out.append({'id': 'b-xmldata', 'tns': 'tns.main', 'name': 'App', 'types': [
+        {'k': 'enum', 'name': 'Unit', 'values': ['kg', 'lb']},
+        {'k': 'complex', 'name': 'Weight', 'ns': 'ns.a', 'doc': 'a <weight> & its "unit"', 'appinfo': {'k': ['v1', 'v2']}, 'fields': [
+            ['val', {'data': {'p': 'Decimal'}}], ['unit', {'attr': {'e': 'Unit'}, 'use': 'required'}], ['note', {'attr': U}]]},
+        {'k': 'complex', 'name': 'Parcel', 'ns': 'ns.b', 'fields': [['w', {'c': 'Weight'}], ['ws', {'iter': {'c': 'Weight'}}], ['wa', {'arr': {'c': 'Weight'}}],
+                                                                    ['blob', {'p': 'ByteArray'}],
+                                                                    ['code', {'p': 'Unicode', 'cust': {'min_len': 4, 'max_len': 4}}],
+                                                                    ['pat', {'p': 'Unicode', 'cust': {'pattern': '[a-z]+', 'max_len': 8}}],
+                                                                    ['price', {'p': 'Decimal', 'cust': {'total_digits': 5, 'fraction_digits': 2}}],
+                                                                    ['n', {'p': 'Integer', 'cust': {'gt': 0, 'lt': 100}}]]},
+        {'k': 'complex', 'name': 'Unused', 'ns': 'ns.c', 'fields': [['x', U]]}, {'k': 'fault', 'name': 'Lost'}],
+        'extra': ['Unused'],
+        'services': [{'name': 'S', 'methods': [
+            {'fn': 'weigh', 'params': [['p', {'c': 'Parcel'}]], 'returns': {'c': 'Weight'}, 'doc': 'Weighs a <parcel> & returns it.',
+             'introspect': True, 'throws': ['Lost'], 'throws_single': True, 'faults_kw': True, 'arg_names': {'p': 'parcel'}},
+            {'fn': 'ping', 'params': [['a', U]], 'returns': U, 'srpc': True, 'introspect': True, 'part': 'parameters',
+             'soap_style': 'document', 'udd': True},
+            {'fn': 'raw', 'params': [['a', U]], 'returns': {'p': 'ByteArray'}, 'body': 'bare', 'soap_style': 'rpc'}]}]})
+    out.append({'id': 'b-shared-svcname-pt', 'tns': 'tns.main', 'name': 'App', 'types': [], 'services': [
+        {'name': 'S1', 'service_name': 'Shared', 'port_types': ['P1'], 'methods': [{'fn': 'f', 'params': [['a', U]], 'returns': U, 'port_type': 'P1'}]},
+        {'name': 'S2', 'service_name': 'Shared', 'port_types': ['P2', 'P3'], 'methods': [{'fn': 'g', 'params': [['a', U]], 'returns': U, 'port_type': 'P3'}]}]})
+    m1 = lambda **k: dict({'fn': 'f', 'params': [['a', U]], 'returns': U}, **k)
+    for tag, svcs, types in (
+            ('port-missing', [{'name': 'S', 'port_types': ['P1'], 'methods': [m1()]}], []),
+            ('port-undeclared', [{'name': 'S', 'port_types': ['P1'], 'methods': [m1(port_type='P9')]}], []),
+            ('port-without-list', [{'name': 'S', 'methods': [m1(port_type='P1')]}], []),
+            ('dup-method', [{'name': 'S1', 'methods': [m1()]}, {'name': 'S2', 'methods': [m1()]}], []),
+            ('op-and-inmsg', [{'name': 'S', 'methods': [m1(op='o', in_msg='i')]}], []),
+            ('dup-class', [{'name': 'S', 'methods': [m1(params=[['a', {'c': 'X1'}], ['b', {'c': 'X2'}]])]}],
+             [{'k': 'complex', 'name': 'X1', 'tname': 'X', 'ns': 'ns.a', 'fields': [['x', U]]},
+              {'k': 'complex', 'name': 'X2', 'tname': 'X', 'ns': 'ns.a', 'fields': [['y', I]]}])):
+        # declarations spyne has to refuse: if one of them is accepted, the document it yields must still pass every oracle
+        out.append({'id': 'b-invalid-' + tag, 'invalid': True, 'tns': 'tns.main', 'name': 'App', 'types': types, 'services': svcs})
+    A1 = [{'k': 'complex', 'name': 'A', 'ns': None, 'fields': [['x', U]]}]
+    out.append({'id': 'b-msgns-out', 'tns': 'tns.main', 'name': 'App', 'types': A1, 'services': [{'name': 'S', 'methods': [
+        {'fn': 'g', 'params': [['a', {'c': 'A'}]], 'returns': U, 'out_msg': '{urn:other}gOut'}]}]})
+    out.append({'id': 'b-msgns-in', 'tns': 'tns.main', 'name': 'App', 'types': A1, 'services': [{'name': 'S', 'methods': [
+        {'fn': 'f', 'params': [['a', U]], 'returns': U, 'in_msg': '{urn:other}fIn'}]}]})
+    out.append({'id': 'b-msgns-bare', 'tns': 'tns.main', 'name': 'App', 'types': [], 'services': [{'name': 'S', 'methods': [
+        {'fn': 'h', 'params': [['a', U]], 'returns': U, 'body': 'bare', 'in_msg': '{urn:other2}hIn'}]}]})
+    out.append({'id': 'b-shared-svcname-default', 'tns': 'tns.main', 'name': 'App', 'types': [], 'services': [
+        {'name': 'S1', 'service_name': 'Shared', 'methods': [{'fn': 'f', 'params': [['a', U]], 'returns': U}]},
+        {'name': 'S2', 'service_name': 'Shared', 'methods': [{'fn': 'g', 'params': [['a', U]], 'returns': U}]}]})
     out.append({'id': 'b-porttypes-1', 'tns': 'tns.main', 'name': 'App', 'types': [], 'services': [
         {'name': 'S', 'port_types': ['P1'], 'methods': [{'fn': 'f', 'params': [['a', U]], 'returns': U, 'port_type': 'P1'}]}]})
     out.append({'id': 'b-porttypes-2', 'tns': 'tns.main', 'name': 'App', 'types': [], 'services': [
@@ -786,6 +926,8 @@ def gen_value(rng, spec, T, depth=0, top=True):
         if p in ('Unicode', 'AnyUri'):
             if 'values' in c:
                 return rng.choice(c['values'])
+            if 'pattern' in c:
+                return ''.join(rng.choice('abcxyz') for _ in range(rng.randrange(max(2, c.get('min_len', 2)), min(c.get('max_len', 8), 8) + 1)))
             # at least two characters: zeep 4.x crashes on a one-character bare string reply (len(str) == 1 is
             # taken for a one-member wrapper object) -- a defect of the foreign toolkit, not of the server
             n = rng.randrange(max(2, c.get('min_len', 1)), min(c.get('max_len', 8), 8) + 1)
@@ -793,17 +935,25 @@ def gen_value(rng, spec, T, depth=0, top=True):
             s = (s + 'xxxxxxxx')[:max(n, c.get('min_len', 1))]
             return ('urn:' + s.replace(' ', '')) if p == 'AnyUri' else s
         if p in ('Integer', 'Integer32'):
-            return rng.randrange(c.get('ge', -50), c.get('le', 1000) + 1)
+            lo = c['gt'] + 1 if 'gt' in c else c.get('ge', -50)
+            hi = c['lt'] - 1 if 'lt' in c else c.get('le', 1000)
+            return rng.randrange(lo, hi + 1)
         if p == 'Boolean':
             return rng.random() < 0.5
         if p == 'Decimal':
-            return D(rng.randrange(-10000, 10000)) / D(100)
+            return D(rng.randrange(-999 if 'total_digits' in c else -10000, 999 if 'total_digits' in c else 10000)) / D(100)
         if p == 'Date':
             return pydt.date(2000 + rng.randrange(30), rng.randrange(1, 13), rng.randrange(1, 29))
+        if p == 'ByteArray':
+            return bytes(rng.randrange(256) for _ in range(rng.randrange(1, 9)))
     if 'e' in T:
         return rng.choice([x for x in spec['types'] if x['name'] == T['e']][0]['values'])
     if 'attr' in T:
         return gen_value(rng, spec, T['attr'], depth, False)
+    if 'data' in T:
+        return gen_value(rng, spec, T['data'], depth, False)
+    if 'iter' in T:
+        return [gen_value(rng, spec, T['iter'], depth + 1, False) for _ in range(rng.randrange(1, 3))]
     if 'arr' in T:
         return [gen_value(rng, spec, T['arr'], depth + 1, False) for _ in range(rng.randrange(1, 3))]
     if 'c' in T:
@@ -811,13 +961,19 @@ def gen_value(rng, spec, T, depth=0, top=True):
         for k, ft in spec_fields(spec, T['c']):
             must = (ft.get('occ') or {}).get('min_occurs', 0) >= 1 or (ft.get('occ') or {}).get('nillable') is False
             if 'attr' in ft:
-                must = False
+                must = ft.get('use') == 'required'
+            if 'data' in ft:
+                must = True
             if depth > 3 and not must:
                 continue
             if must or rng.random() < 0.75:
                 out[k] = gen_value(rng, spec, ft, depth + 1)
         return out
     raise ValueError(T)
+
+
+def _seq(T):
+    return T.get('arr') or T.get('iter')
 
 
 def to_spyne(spec, env, T, v, top=True):
@@ -827,10 +983,12 @@ def to_spyne(spec, env, T, v, top=True):
         return [to_spyne(spec, env, T, x, False) for x in v]
     if 'c' in T:
         return env[T['c']](**dict((k, to_spyne(spec, env, ft, v.get(k))) for k, ft in spec_fields(spec, T['c']) if k in v))
-    if 'arr' in T:
-        return [to_spyne(spec, env, T['arr'], x, False) for x in v]
-    if 'attr' in T:
-        return to_spyne(spec, env, T['attr'], v, False)
+    if _seq(T):
+        return [to_spyne(spec, env, _seq(T), x, False) for x in v]
+    if 'attr' in T or 'data' in T:
+        return to_spyne(spec, env, T.get('attr') or T['data'], v, False)
+    if T.get('p') == 'ByteArray':
+        return [v]
     return v
 
 
@@ -846,12 +1004,14 @@ def from_spyne(spec, T, o, top=True):
             if x is not None:
                 d[k] = x
         return d
-    if 'arr' in T:
-        return [from_spyne(spec, T['arr'], x, False) for x in o] or None
-    if 'attr' in T:
-        return from_spyne(spec, T['attr'], o, False)
+    if _seq(T):
+        return [from_spyne(spec, _seq(T), x, False) for x in o] or None
+    if 'attr' in T or 'data' in T:
+        return from_spyne(spec, T.get('attr') or T['data'], o, False)
     if 'e' in T:
         return str(o)
+    if T.get('p') == 'ByteArray':
+        return b''.join(o) if isinstance(o, (list, tuple)) else o
     return o
 
 
@@ -865,11 +1025,12 @@ def to_zeep(spec, env, T, v, top=True):
     if top and is_multi(T):
         return [to_zeep(spec, env, T, x, False) for x in v]
     if 'c' in T:
-        return dict((k, to_zeep(spec, env, ft, v[k])) for k, ft in spec_fields(spec, T['c']) if k in v)
-    if 'arr' in T:
-        return {arr_member(env, T): [to_zeep(spec, env, T['arr'], x, False) for x in v]}
-    if 'attr' in T:
-        return to_zeep(spec, env, T['attr'], v, False)
+        return dict(('_value_1' if 'data' in ft else k, to_zeep(spec, env, ft, v[k]))
+                    for k, ft in spec_fields(spec, T['c']) if k in v)
+    if _seq(T):
+        return {arr_member(env, T): [to_zeep(spec, env, _seq(T), x, False) for x in v]}
+    if 'attr' in T or 'data' in T:
+        return to_zeep(spec, env, T.get('attr') or T['data'], v, False)
     return v
 
 
@@ -881,16 +1042,17 @@ def from_zeep(spec, env, T, o, top=True):
     if 'c' in T:
         d = {}
         for k, ft in spec_fields(spec, T['c']):
-            x = from_zeep(spec, env, ft, o.get(k) if isinstance(o, dict) else getattr(o, k, None))
+            zk = '_value_1' if 'data' in ft else k
+            x = from_zeep(spec, env, ft, o.get(zk) if isinstance(o, dict) else getattr(o, zk, None))
             if x is not None:
                 d[k] = x
         return d
-    if 'arr' in T:
+    if _seq(T):
         m = arr_member(env, T)
         items = o.get(m) if isinstance(o, dict) else (o if isinstance(o, list) else getattr(o, m, None))
-        return [from_zeep(spec, env, T['arr'], x, False) for x in (items or [])] or None
-    if 'attr' in T:
-        return from_zeep(spec, env, T['attr'], o, False)
+        return [from_zeep(spec, env, _seq(T), x, False) for x in (items or [])] or None
+    if 'attr' in T or 'data' in T:
+        return from_zeep(spec, env, T.get('attr') or T['data'], o, False)
     return o
 
 
@@ -978,7 +1140,8 @@ def zeep_roundtrip(ctx, spec, wsdl_bytes, rng):
                 else:
                     args = [z]
             else:
-                kw = dict((k, to_zeep(spec, b.env, T_, v)) for k, T_, v in sent)
+                pub = dict(m.get('arg_names') or {})
+                kw = dict((pub.get(k, k), to_zeep(spec, b.env, T_, v)) for k, T_, v in sent)
             hnames = m.get('in_header') or s.get('in_header')
             hvals = None
             if hnames:
@@ -1059,8 +1222,8 @@ def norm(v):
         return 'D:' + format(v.normalize(), 'f')
     if isinstance(v, (pydt.date, pydt.datetime)):
         return v.isoformat()
-    if isinstance(v, bool):
-        return v
+    if isinstance(v, (bytes, bytearray)):
+        return 'B:' + bytes(v).hex()
     return v
 
 
@@ -1264,6 +1427,10 @@ def analyse(ctx, spec, rng, with_zeep=True):
         b = build_app(spec)
     except Exception as e:
         ctx.hit('spec-rejected:' + type(e).__name__)
+        if str(spec.get('id', '')).startswith('b-') and not spec.get('invalid'):
+            # the boundary applications are valid declarations: refusing one is a failure, not a skipped case
+            ctx.finding('build:rejected:' + type(e).__name__, 'the application %s is refused: %s' % (spec['id'], str(e)[:200]),
+                        {'check': 'build', 'spec': spec})
         return None
     try:
         st, order = extract_istate(b.app)
@@ -1279,6 +1446,9 @@ def analyse(ctx, spec, rng, with_zeep=True):
     try:
         data = build_wsdl(b.app)
     except Exception as e:
+        if spec.get('invalid'):
+            ctx.hit('invalid-spec-rejected-at-build:' + type(e).__name__)
+            return None
         res['build_crash'] = type(e).__name__
         return res
     res['data'] = data
@@ -1296,12 +1466,25 @@ def analyse(ctx, spec, rng, with_zeep=True):
     res['ops'] = ops_check(data, b.app)
     res['imports_missing'] = imports_check(data)
     res['duplicates'] = duplicates(data)
+    res['extra'] = extra_checks(spec, data) if str(spec.get('id', '')).startswith('b-') else []
     res['zeep'] = zeep_roundtrip(ctx, spec, data, rng) if with_zeep else []
     return res
 
 
+def foreign_msg_ns(spec):
+    return any(str(m.get(k) or '').startswith('{') for s_ in spec['services'] for m in s_['methods'] for k in ('in_msg', 'out_msg'))
+
+
+def shared_default_service(spec):
+    names = [s_.get('service_name') for s_ in spec['services'] if s_.get('service_name') and not s_.get('port_types')]
+    return len(names) != len(set(names))
+
+
 def input_class(spec, text):
-    """suffix for finding ids: the failure concerns a class that lists a plain mixin next to its spyne base"""
+    """suffix for finding ids: the failure concerns a class that lists a plain mixin next to its spyne base, a message
+       that was given a namespace of its own, or services without port types that share a service name"""
+    if foreign_msg_ns(spec):
+        return ':message-foreign-ns'
     for pos in ('after', 'before'):
         names = [t['name'] for t in spec['types'] if t.get('mixin') == pos]
         for _ in spec['types']:        # classes derived from such a class inherit the problem
@@ -1309,6 +1492,56 @@ def input_class(spec, text):
         if any(re.search(r'(^|[^A-Za-z0-9_])%s($|[^A-Za-z0-9_])' % re.escape(n), text or '') for n in names):
             return ':mixin-%s-base' % pos
     return ''
+
+
+def extra_checks(spec, data):
+    """configuration dimensions of the document builders, on the boundary applications: rebuilding on the same
+       interface, the xml-stylesheet option, the stand-alone XmlSchema documents, a missing transport"""
+    from lxml import etree
+    from spyne.interface.wsdl import Wsdl11
+    from spyne.interface.xml_schema import XmlSchema
+    bad = []
+    b = build_app(spec)
+    first = build_wsdl(b.app)
+    if first != data:
+        bad.append(('rebuild', 'a second application object of the same declarations renders different bytes'))
+    if build_wsdl(b.app) != first:
+        bad.append(('rebuild', 'rendering the same interface twice yields different bytes'))
+    w = Wsdl11(b.app.interface, xsl_href='wsdl-viewer.xsl?a=1&b=<2>')
+    w.build_interface_document(URL)
+    styled = w.get_interface_document()
+    try:
+        root = etree.fromstring(styled)
+        pis = [n for n in root.itersiblings(preceding=True)]
+        if len(pis) != 1 or pis[0].target != 'xml-stylesheet':
+            bad.append(('xsl', 'no xml-stylesheet processing instruction before the root element'))
+        if etree.tostring(root) != etree.tostring(etree.fromstring(first)):
+            bad.append(('xsl', 'the document with xsl_href differs from the plain one beyond the processing instruction'))
+    except etree.XMLSyntaxError as e:
+        bad.append(('xsl', 'not well-formed with xsl_href: %s' % e))
+    xs = XmlSchema(b.app.interface)
+    xs.build_interface_document()
+    alone = sorted(etree.tostring(v) for v in xs.get_interface_document().values())
+    emb = sorted(etree.tostring(v) for v in etree.fromstring(first).iter(_q(NS_XSD, 'schema')))
+    if [hashlib.sha1(x).hexdigest() for x in map(_strip_nsdecl, alone)] != [hashlib.sha1(x).hexdigest() for x in map(_strip_nsdecl, emb)]:
+        bad.append(('standalone-schema', 'XmlSchema.get_interface_document() differs from the schemas embedded in the WSDL'))
+    tdefs = set((sc.get('targetNamespace'), t.get('name')) for sc in etree.fromstring(first).iter(_q(NS_XSD, 'schema'))
+                for t in sc if isinstance(t.tag, str) and etree.QName(t).localname in ('complexType', 'simpleType'))
+    for c in b.app.classes:
+        if (c.get_namespace(), c.get_type_name()) not in tdefs:
+            bad.append(('extra-class-missing', 'Application(classes=[%s]) is not defined in the schemas' % c.get_type_name()))
+    b.app.transport = None
+    try:
+        build_wsdl(b.app)
+        bad.append(('transport', 'a WSDL was built although the application has no transport'))
+    except Exception:
+        pass
+    return bad
+
+
+def _strip_nsdecl(c14n):
+    """canonical form without the namespace declarations (they depend on where the element is attached)"""
+    return re.sub(rb' xmlns:[\w.-]+="[^"]*"', b'', c14n)
 
 
 def report_t3(ctx, r):
@@ -1325,8 +1558,13 @@ def report_t3(ctx, r):
         ctx.hit('t3-fail:closed:' + kind)
         ctx.finding('closed:' + kind + input_class(spec, val + ' ' + why), 'QName reference %s="%s" does not resolve: %s' % (kind, val, why),
                     {'check': 'closed', 'spec': spec, 'reference': val, 'reason': why})
+    for kind, what in r.get('extra') or ():
+        ctx.hit('t3-fail:config:' + kind)
+        ctx.finding('config:' + kind + input_class(spec, ''), what, {'check': 'config', 'spec': spec})
     for kind, name, k in r['duplicates']:
         ctx.hit('t3-fail:closed:duplicate-definition:' + kind)
+        if kind == 'port' and shared_default_service(spec):
+            kind = 'port:shared-service-name'
         ctx.finding('closed:duplicate-definition:' + kind, '%s %r is defined %d times: references to it are ambiguous' % (kind, name, k),
                     {'check': 'closed', 'spec': spec, 'reference': name, 'reason': 'defined %d times' % k})
     for tns, val, ns in r['imports_missing']:
@@ -1354,9 +1592,19 @@ def spec_features(ctx, spec, r):
             ctx.hit('service-header')
         for m in s['methods']:
             ctx.hit('body:' + m.get('body', 'wrapped'))
-            for k in ('op', 'in_msg', 'out_msg', 'out_var', 'throws', 'in_header', 'out_header'):
+            for k in ('op', 'in_msg', 'out_msg', 'out_var', 'throws', 'in_header', 'out_header', 'doc', 'srpc', 'introspect',
+                      'faults_kw', 'throws_single', 'arg_names', 'part', 'soap_style'):
                 if m.get(k):
                     ctx.hit('method:' + k)
+    txt = json.dumps(spec['types'])
+    for k in ('"data"', '"iter"', '"use"', '"mixin"', '"doc"', 'ByteArray', 'pattern', 'total_digits', '"gt"'):
+        if k in txt:
+            ctx.hit('types:' + k.strip('"'))
+    for k in ('pins', 'extra'):
+        if spec.get(k):
+            ctx.hit('app:' + k)
+    if len(set(s_.get('service_name') for s_ in spec['services'] if s_.get('service_name'))) < len([1 for s_ in spec['services'] if s_.get('service_name')]):
+        ctx.hit('app:shared-service-name')
     reprs = {}
     for c in r['istate']['classes']:
         reprs.setdefault(c['repr'], set()).add((c['ns'], c['tn']))
@@ -1438,7 +1686,7 @@ def run(ctx):
             continue
         bad_pos = {'lastBase': 'after', 'firstBase': 'before'}.get(ctx.facts.get('handlerLookup'))
         explained = bad_pos and input_class(r['spec'], ' '.join(t['name'] for t in r['spec']['types'])) == ':mixin-%s-base' % bad_pos
-        if not mod.get('wf') and not explained:      # (a contract failure caused by the measured handler lookup is reported by T3)
+        if not mod.get('wf') and not explained and not foreign_msg_ns(r['spec']):      # (a contract failure caused by the measured handler lookup is reported by T3)
             ctx.disagree('wf', {'spec': r['spec']}, 'interface state of a real application',
                          {'wf': False, 'classes': mod.get('wfBadCls'), 'methods': mod.get('wfBadMeth')})
         if mod['tiers'] != r['tiers']:
@@ -1447,11 +1695,24 @@ def run(ctx):
             if key(mod['tiers']) != key(r['tiers']):
                 ctx.disagree('toposort', {'spec': r['spec']}, r['tiers'], mod['tiers'])
         md = strip_model_doc(mod['ok'])
+        foreign = foreign_msg_ns(r['spec'])
+        if foreign:
+            # `{ns}name` message names are outside the model's contract: compare everything but the prefix of the
+            # operation's message references and the namespace declarations
+            def loc(d):
+                d = json.loads(json.dumps(d))
+                for pt in d['portTypes']:
+                    for o in pt['ops']:
+                        o['inMsg'], o['outMsg'] = o['inMsg'].split(':')[-1], o['outMsg'].split(':')[-1]
+                d['nsdecl'] = sorted(map(tuple, d['nsdecl']))
+                return d
+            if loc(md) == loc(r['real']):
+                md = r['real']
         if md != r['real']:
             part = [k for k in r['real'] if md.get(k) != r['real'][k]]
             ctx.disagree('gen', {'spec': r['spec'], 'differs_in': part},
                          dict((k, r['real'][k]) for k in part[:1]), dict((k, md.get(k)) for k in part[:1]))
-        if mod['closed'] != (not r['unresolved']):
+        if mod['closed'] != (not r['unresolved']) and not foreign_msg_ns(r['spec']):
             ctx.disagree('closed', {'spec': r['spec']}, r['unresolved'], mod['closed'])
         if mod.get('wfOps') and mod.get('wellDefined') != (not r['duplicates']):
             ctx.disagree('wellDefined', {'spec': r['spec']}, r['duplicates'], mod.get('wellDefined'))
